@@ -7,6 +7,8 @@ ID="$1"; TIER="${2:-quick}"; shift; shift || true
 export CARGO_NET_OFFLINE=true
 ROOT="$(cd "$(dirname "$0")/.." && pwd)"
 export VERIF_ROOT="$ROOT"
+# all binaries are looked up under $ROOT/target (a snapshot of /verif builds into its own directory)
+export CARGO_TARGET_DIR="$ROOT/target"
 cd "$ROOT/harness" || exit 2
 mkdir -p "$ROOT/work" "$ROOT/evidence" "$ROOT/replays"
 LOG="$ROOT/work/build-$ID.log"
